@@ -159,6 +159,11 @@ def run_property(prop, tier="quick", seed=0, only=None):
         occ[key] = occ.get(key, 0) + 1
         ident = _vc_ident(vc, occ[key])
         rep.solver_s += r["time"]
+        if vc.kind != "canary":
+            sl = getattr(rep, "slowest", [])
+            sl.append((round(r["time"], 2), ident, r["backend"]))
+            sl.sort(reverse=True)
+            rep.slowest = sl[:5]
         if vc.kind == "canary":
             g = canary_groups.setdefault((vc.func.split("[")[0], vc.label, vc.line), [])
             g.append(r["verdict"])
@@ -448,6 +453,8 @@ def finish(rep, prop, known):
         "discharged_by_backend": rep.by_backend,
         "solver_cpu_s": round(rep.solver_s, 2),
         "solve_wall_s": round(getattr(rep, "solve_wall", 0.0), 2),
+        "slowest_obligations": [{"solver_s": t, "obligation": i, "backend": b} for t, i, b in getattr(rep, "slowest", [])],
+        "solver_budget_s": {"z3": 20, "cvc5": 30, "retry_factor": 3},
         "vacuity": {"exit_points_and_loop_bodies": rep.canary_groups, "reachable": rep.canary_refuted},
         "structural": rep.structural,
         "samples": rep.samples or [{"note": "no obligation sample available"}],
